@@ -411,45 +411,52 @@ def newExprArgs (self : Str) (expected : List Str) (st : State) (arguments : Lis
     | .cons _ _ => .error .fillNotLast
 end
 
+/-- the projection loop of `resolve_package_path`: each further segment selects an export -/
+def walkPath (pkg : Str) (found : Kind) : List Str → Except Diag Kind
+  | [] => .ok found
+  | segment :: rest =>
+    match found.instExports.bind (·.get segment) with
+    | none => .error (.packageMissingExport pkg segment)
+    | some k => walkPath pkg k rest
+
 /-- `AstResolver::resolve_package_path` (paths into other packages) -/
 def resolvePackagePath (st : State) (pkg : Str) (ver : Option Str) (segs : List Str) : Except Diag (State × Kind) :=
   match resolvePackage st pkg ver with
   | .error e => .error e
   | .ok (st, id) =>
-    let package := st.graph.packages[id]?
-    let rec walk (found : Kind) : List Str → Except Diag Kind
-      | [] => .ok found
-      | segment :: rest =>
-        match found.instExports.bind (·.get segment) with
-        | none => .error (.packageMissingExport pkg segment)
-        | some k => walk k rest
     match segs with
     | [] => .error (.unknownPackage pkg)   -- unreachable: a path has at least one segment
     | first :: rest =>
-      match package.bind (·.definition first) with
+      match (st.graph.packages[id]?).bind (·.definition first) with
       | none => .error (.packageMissingExport pkg first)
       | some k =>
-        match walk k rest with
+        match walkPath pkg k rest with
         | .error e => .error e
         | .ok k => .ok (st, k)
 
+/-- `import_statement`: "Determine the import name to use" -/
+def importStatementName (id : Str) (as : Option Str) (ty : ImportTy) : Str :=
+  match as with
+  | some name => name
+  | none =>
+    match ty with
+    | .path pkg ver segs => pathString pkg ver segs
+    | .func _ => id
+    | .iface _ => id
+
+/-- `import_statement`: "Determine the kind for the item to import" -/
+def importStatementKind (st : State) (ty : ImportTy) : Except Diag (State × Kind) :=
+  match ty with
+  | .path pkg ver segs => resolvePackagePath st pkg ver segs
+  | .func sig => .ok (st, .func sig)
+  | .iface fs => .ok (st, .inst none (Exports.ofList (fs.map fun (n, s) => (n, Kind.func s))))
+
 /-- `AstResolver::import_statement` -/
 def importStatement (st : State) (id : Str) (as : Option Str) (ty : ImportTy) : Except Diag State :=
-  let name := match as with
-    | some name => name
-    | none =>
-      match ty with
-      | .path pkg ver segs => pathString pkg ver segs
-      | .func _ => id
-      | .iface _ => id
-  let kind : Except Diag (State × Kind) := match ty with
-    | .path pkg ver segs => resolvePackagePath st pkg ver segs
-    | .func sig => .ok (st, .func sig)
-    | .iface fs => .ok (st, .inst none (Exports.ofList (fs.map fun (n, s) => (n, Kind.func s))))
-  match kind with
+  match importStatementKind st ty with
   | .error e => .error e
   | .ok (st, kind) =>
-    match st.graph.import name kind with
+    match st.graph.import (importStatementName id as ty) kind with
     | .error e => .error e
     | .ok (g, node) => State.registerName { st with graph := g } id node
 
